@@ -188,8 +188,6 @@ func (w *World) Applicable(op Op) bool {
 	switch op.Op {
 	case "upd", "del", "get", "flush", "flushc":
 		return op.Slot < len(w.Slots)
-	case "tick":
-		return w.Cfg.Async != 0
 	case "abandon":
 		return w.Cfg.Async == 0
 	case "many", "bulk":
@@ -299,6 +297,13 @@ func (w *World) Apply(op Op) {
 			w.fail("close-err", fmt.Sprintf("Close returned %v", err))
 		}
 		w.open()
+	case "settings":
+		// Create with a compatible schema that switches cache / asynchronous writes on the live handle
+		w.Cfg.Cache = op.Alt%2 == 1
+		w.Cfg.Async = []int{0, 1, 2}[op.Alt/2]
+		if err := w.DB.Create(&Rec{}, w.Cfg.Schema(&Rec{})); err != nil {
+			w.fail("settings-create-err", fmt.Sprintf("Create with new cache/async settings returned %v", err))
+		}
 	case "reopennc":
 		// Close, then a new handle that does NOT call Create: the collection is loaded lazily by the next call
 		if err := w.DB.Close(); err != nil {
